@@ -272,6 +272,7 @@ func main() {
 	factsArchive(arch)
 	factsStreams(*repo, arch)
 	factsShared(*repo)
+	factsJailBody(arch)
 	emit("")
 	emit("end GA.Facts")
 	fmt.Print(out.String())
